@@ -13,12 +13,13 @@ func init() {
 		id: "C17",
 		explanation: "Static clauses of 'ToolsNode answers every tool call, in call order, whatever the completion order': " +
 			"(index-preserved) task i is built from tool call i; Invoke's output[i] and Stream's converted reader i are built from task i (result, call id) and the result lists have length len(tasks); " +
-			"(loopvar) no function literal that outlives its iteration captures a loop variable (the module is built with pre-1.22 loop semantics); " +
+			"the stream converter of call i is total: every chunk, an empty one included, becomes a frame carrying call i's ToolMessage (no skipped chunk, no error); " +
+			"(loopvar) no function literal that outlives its iteration captures a loop variable, and no address of a loop variable (or of one of its fields) is stored, captured, sent or passed to a callee that keeps it — interprocedural over module functions (the module is built with pre-1.22 loop semantics); " +
 			"(err-before-use) every read of a task's output is dominated by the err == nil arm of the check of that same task; " +
 			"(parallel-protocol) each worker is counted with wg.Add before it is spawned, registers wg.Done BEFORE its recover handler (so the panic is recorded before the waiter is released), records the panic in the task, gets a pointer to its own task and the caller's context; wg.Wait lies between the spawns and every return; " +
 			"(unknown-tool) an unknown tool name is an error unless a handler is configured, in which case the handler task is used; " +
 			"(siblings) Invoke and Stream perform the same steps with their respective runner.",
-		decided:    []string{"index-preserved", "loopvar", "err-before-use", "parallel-protocol", "unknown-tool", "siblings"},
+		decided:    []string{"index-preserved (incl. converter totality)", "loopvar (captures and escaping addresses)", "err-before-use", "parallel-protocol", "unknown-tool", "siblings"},
 		notDecided: []string{"run-time completion-order independence beyond the structural facts", "behaviour of tools", "position-wise concatenation of the streamed sparse lists (C14 covers concatMessageArray structurally)"},
 		run:        runC17,
 	})
